@@ -136,7 +136,7 @@ theorem C02_pooled_once (cfg : Config) (ops : List Op) (c : ConnId) (t t' : Toke
 /-- Non-vacuity: two requests for one origin on HTTP/1; the second only gets the connection after the
     first released it and it became ready again. -/
 example :
-    let ops : List Op := [.issue 0 7 false, .poll 0, .dialDone 0 (.ok false), .poll 0, .issue 1 7 false, .poll 1,
+    let ops : List Op := [.issue 0 7 false, .poll 0, .dialDone 0 (.ok .asRequested), .poll 0, .issue 1 7 false, .poll 1,
                           .finish 0, .run, .poll 1, .connReady 0, .run, .poll 1]
     let s := (run (init {}) ops).1
     s.held 0 = none ∧ s.held 1 = some ⟨0, 1, true⟩ ∧ (run (init {}) (ops.take 9)).1.held 1 = none := by
